@@ -466,6 +466,8 @@ func checkC15(w *World, r *Report) {
 			"unchecked assertion at "+bad+": any message addressed to the writer's PID kills the node")
 	}
 	checkReaderDelivery(w, r, a, "C15.R7")
+	r.Rule("C15.R8", "writer and reader use one codec family, and a decoded message is created by the decoding call (not shared package state)", 2)
+	checkCodec(w, r, "C15.R8")
 }
 
 func checkLookupHelper(w *World, r *Report, L *ssa.Function) {
